@@ -171,7 +171,13 @@ def prop_c07(tier, failures, counter, samples):
             model, expected, inits = make_model(kinds=("arr", "lazy"))
             ir.save(model, os.path.join(d, "m.onnx"), external_data="w.data", size_threshold_bytes=0)
             loaded = ir.load(os.path.join(d, "m.onnx"))
+            held = {v.name: v.const_value for v in all_initializers(loaded)}
             ir.save(loaded, os.path.join(d, "m.onnx"), external_data="w.data", size_threshold_bytes=thr2, max_workers=wk)
+            # the model object passed to save holds the same tensor objects afterwards (also those at or below the threshold)
+            for v in all_initializers(loaded):
+                if v.const_value is not held[v.name]:
+                    failures.append(f"{tag}: after save the model holds a different tensor object for {v.name} "
+                                    f"({type(held[v.name]).__name__} -> {type(v.const_value).__name__})")
             again = ir.load(os.path.join(d, "m.onnx"))
             got = {v.name: v for v in all_initializers(again)}
             for name, (dt, shape, data) in expected.items():
